@@ -40,7 +40,10 @@ Inductive c14case :=
    The first attempt must be decided as C14_bad_body's function decides it with the library as
    decompressor; after a refusal exactly one later attempt delivers what was given *)
 | CTamper (is_event : bool) (hdr : str) (body : str) (lib : option str) (first : attempt)
-          (given_m : list entry) (given_e : event) (later : list attempt).
+          (given_m : list entry) (given_e : event) (later : list attempt)
+(* every proper prefix (length k) of a body the real forwarder produced, posted with the same
+   Content-Encoding: (k, what the codec library makes of the prefix, status, dispatched?) *)
+| CPrefix (is_event : bool) (hdr : str) (body : str) (results : list (nat * option str * Z * bool)).
 
 
 Definition mk_nested {A} (l : list (str * list (str * A))) : gmap str (gmap str A) :=
@@ -166,6 +169,18 @@ Definition check_case (c : c14case) : bool :=
         | (st, Some m) => (st1 =? st) && disp1 && dump_matches m1 m && match later with [] => true | _ => false end
         | (st, None) => (st1 =? st) && negb disp1 && delivered_later
         end
+  | CPrefix is_event hdr body results =>
+      match receiver_codec hdr with Some _ => true | None => false end &&
+      forallb (fun '(k, lib, st, disp) =>
+        let dec := fun (_ : codec) (_ : str) => lib in
+        let pre := firstn k body in
+        (k <? length body)%nat &&
+        if is_event then
+          let r := event_handler dec event_unmarshal hdr (Some pre) in
+          (st =? fst r) && Bool.eqb disp (match snd r with Some _ => true | None => false end)
+        else
+          let r := metric_handler dec pb_unmarshal 0 hdr (Some pre) in
+          (st =? fst r) && Bool.eqb disp (match snd r with Some _ => true | None => false end)) results
   | CConc exp_maps exp_events bad obs_maps obs_events =>
       match bad with [] => true | _ => false end
       && multiset_eqb conc_map_same exp_maps obs_maps
@@ -177,7 +192,8 @@ Inductive explanation :=
 | XEvent (cfg : option fwd_cfg) (hdr : str) (out : event)
 | XConfig (cfg : option fwd_cfg)
 | XRaw (st : Z) (m : option (list entry)) (e : option event)
-| XConc (maps : list (list entry)) (events : list event).
+| XConc (maps : list (list entry)) (events : list event)
+| XPrefix (expected_status : list (nat * Z)).
 
 Definition explain_case (c : c14case) : explanation :=
   match c with
@@ -197,6 +213,11 @@ Definition explain_case (c : c14case) : explanation :=
       let dec := fun (_ : codec) (_ : str) => lib in
       if is_event then let r := event_handler dec event_unmarshal hdr (Some body) in XRaw (fst r) None (snd r)
       else let r := metric_handler dec pb_unmarshal now1 hdr (Some body) in XRaw (fst r) (option_map entries (snd r)) None
+  | CPrefix is_event hdr body results =>
+      XPrefix (map (fun '(k, lib, _, _) =>
+        let dec := fun (_ : codec) (_ : str) => lib in
+        (k, if is_event then fst (event_handler dec event_unmarshal hdr (Some (firstn k body)))
+            else fst (metric_handler dec pb_unmarshal 0 hdr (Some (firstn k body))))) results)
   | CConc exp_maps exp_events _ _ _ =>
       XConc (map (fun g => entries (from_pb 0 (to_pb (map_of_entries g)))) exp_maps)
             (map (fun e => event_from_pb (event_to_pb e)) exp_events)
